@@ -101,6 +101,8 @@ func genOp(t *rapid.T, ntypes int, g *genState) Op {
 		delete(g.subs, o.T)
 	case "clearall":
 		g.subs = map[int][][2]int{}
+	case "pub", "pubctx":
+		o.Any = rapid.IntRange(0, 3).Draw(t, "viaAny") == 0
 	}
 	return o
 }
